@@ -33,6 +33,7 @@ func main() {
 	verif := fs.String("verif", "/verif", "verification directory")
 	replay := fs.String("replay", "", "replay file")
 	budget := fs.Int("budget", 0, "internal wall-clock budget in seconds (0 = tier default)")
+	childOut := fs.String("childout", "", "internal: write the raw report here (child process of a scenario-parallel run)")
 	fs.Parse(os.Args[2:])
 	if s := os.Getenv("VERIF_SEED"); s != "" && *seed == 0 {
 		if v, err := strconv.ParseInt(s, 10, 64); err == nil {
@@ -59,5 +60,9 @@ func main() {
 		r.Deadline = time.Now().Add(time.Duration(b) * time.Second)
 	}
 	chk.Run(r)
+	if *childOut != "" {
+		r.WriteChild(*childOut)
+		return
+	}
 	os.Exit(r.Finish(*verif))
 }
